@@ -4,6 +4,11 @@
 //! went away without sending (or the value has been taken, or the receiver closed the channel before
 //! a value arrived), `Empty` while the sender is still there and has not sent; `closed().await`
 //! completes once the receiver is closed or dropped.
+//!
+//! Cancellation: a task aborted inside `rx.await` drops the receiver (channel closed, a value already
+//! sent is lost, later `send` refused, `closed()` completes); one aborted inside `tx.closed().await`
+//! drops the sender (the receiver gets `RecvError`); `time::timeout(&mut rx)` that expires leaves the
+//! receiver usable and loses nothing.
 
 use crate::driver::XFamily;
 use shuttle_tokio_impl_inner::sync::oneshot;
